@@ -272,6 +272,10 @@ pub fn judge_session(lines: &[&str]) -> serde_json::Value {
         return json!({"excluded": "a form of the session does not terminate (outside the claim)"});
     }
     let got = binary_session(lines);
+    if matches!(&got, Err(e) if e.contains("has overflowed its stack")) {
+        // (the deepest forms of the nesting ladder exceed the 8 MB main-thread stack of a debug build)
+        return json!({"excluded": "the binary exhausted its host stack on a deeply nested form (resource exhaustion, outside the claim)"});
+    }
     let class = match &got {
         Ok(t) if t.stderr.is_empty() => "session without error",
         Ok(_) => "session with error message",
